@@ -41,14 +41,15 @@ Verdict(ev) ==
          sqllist |-> ldet => ev.sqlf = ref /\ ev.sqlr = ref,
          cols    |-> /\ \A i \in DOMAIN ev.iter : DOMAIN ev.iter[i] = cols
                      /\ \A i \in DOMAIN ev.sqlf : DOMAIN ev.sqlf[i] = cols,
-         wf      |-> WellFormed(t),
+         wf      |-> ~UnresJ(ev.tree) /\ WellFormed(t),
          det     |-> bdet ]
 
 Init == l = 1
 Next == /\ l <= Len(Trace)
         /\ LET v == Verdict(Trace[l]) IN
-              /\ (v.iter /\ v.sqlbag /\ v.sqllist /\ v.cols /\ v.wf) \/ PrintT(<<"TV", ToJson([id |-> Trace[l].id, v |-> v])>>)
-              /\ (v.det => PrintT(<<"TD", Trace[l].id>>))
+              /\ IF v.iter /\ v.sqlbag /\ v.sqllist /\ v.cols /\ v.wf THEN TRUE
+                 ELSE PrintT(<<"TV", ToJson([id |-> Trace[l].id, v |-> v])>>)
+              /\ IF v.det THEN PrintT(<<"TD", Trace[l].id>>) ELSE TRUE
         /\ l' = l + 1
         /\ (l' = Len(Trace) + 1 => PrintT(<<"TVDONE", Len(Trace)>>))
 Spec == Init /\ [][Next]_l
